@@ -188,13 +188,11 @@ class SqlText:
             if latest is None:
                 return False
             v = latest.value
-            ok = (
-                isinstance(v, ast.Call)
-                and call_name(v) == "execute"
-                and bool(v.args)
-                and isinstance(v.args[0], ast.Constant)
-                and "sqlite_master" in str(v.args[0].value)
-                and str(v.args[0].value).upper().lstrip().startswith("SELECT NAME")
-            )
+            text = v.args[0] if isinstance(v, ast.Call) and call_name(v) == "execute" and v.args else None
+            if isinstance(text, ast.Name):
+                # the statement text held in a local that has exactly one definition, a constant string
+                vals = [n.value for n in walk_no_nested(f.node) if isinstance(n, ast.Assign) and any(isinstance(t, ast.Name) and t.id == text.id for t in n.targets)]
+                text = vals[0] if len(vals) == 1 else None
+            ok = isinstance(text, ast.Constant) and "sqlite_master" in str(text.value) and str(text.value).upper().lstrip().startswith("SELECT NAME")
             return ok
         return False
